@@ -139,7 +139,7 @@ fn walk_int(all: &[u8], pos: usize, prefix: u32) -> Option<(u64, usize)> {
 fn huff_candidates(all: &[u8], acc: &mut BTreeMap<Vec<u8>, Option<Vec<u8>>>) {
     let mut pos = 0usize;
     // returns the position after the string, recording it when Huffman coded
-    let mut string = |pos: usize, acc: &mut BTreeMap<Vec<u8>, Option<Vec<u8>>>| -> Option<usize> {
+    let string = |pos: usize, acc: &mut BTreeMap<Vec<u8>, Option<Vec<u8>>>| -> Option<usize> {
         if pos >= all.len() {
             return None;
         }
